@@ -220,7 +220,7 @@ ClassZip(c) ==
 
 (* ================================================================================= 7z ==== *)
 CoderIds == { "COPY", "LZMA", "LZMA2", "BCJ", "AES", "AESX" }    \* AES = 06F10701, AESX = 06F107xx other
-HdrKinds == { "plain", "lzma", "aes", "aes+lzma" }
+HdrKinds == { "plain", "lzma", "aes", "lzma+aes" }
 IsAesPrefix(id) == id \in {"AES", "AESX"}                         \* coder_id.startswith(06 F1 07)
 
 \* needs_password: any(coder_id.startswith(AES_PREFIX) for folder in folders for coder in folder)
@@ -236,7 +236,7 @@ AnyAesFolder(folders, i) ==
     ELSE AnyAesFolder(folders, i + 1)
 
 DetectSevenZ(c) == AnyAesFolder(c.folders, 1)
-HdrEncrypted(c) == c.hdr \in {"aes", "aes+lzma"}                  \* -mhe=on: the header folder is 7zAES-coded
+HdrEncrypted(c) == c.hdr \in {"aes", "lzma+aes"}                  \* -mhe=on: the header folder is 7zAES-coded
 
 \* 7zFormat.txt / Methods.txt: 06F10701 = 7zAES (AES-256 + SHA-256): the streams need a password
 ClassSevenZ(c) ==
